@@ -180,7 +180,7 @@ fn replace_at(h: &H, path: &[usize], new: &H) -> H {
 
 pub fn run(ctx: &Ctx, sink: &mut Sink) {
     let cli = ctx.opt("cli").map(|s| s.to_string());
-    let n = ctx.budget(3000, 100_000);
+    let n = ctx.budget(16_000, 200_000);
     for i in 0..n {
         if !ctx.mine(i) {
             continue;
@@ -279,7 +279,7 @@ pub fn run(ctx: &Ctx, sink: &mut Sink) {
         }
         // ---- (2) processes: same program, fresh processes (new hash seeds): stdout bytes and exit status identical
         if let Some(cli) = &cli {
-            if i % (ctx.budget(15, 20)) == 0 {
+            if i % (ctx.budget(40, 40)) == 0 {
                 // only the statements that succeed, so that the CLI reaches the outputs
                 let good: Vec<H> = stmts.iter().zip(first.per_stmt.iter()).filter(|(_, o)| matches!(o, ROut::Ok(_))).map(|(s, _)| s.clone()).collect();
                 let mut prog = print_program(&good, Mode::Min);
